@@ -257,9 +257,12 @@ def r3(k: Kit) -> None:
 
         def is_bound(nid, e) -> bool:
             bl, bf = expr_sources(g, rd, nid, e)
+            # min() over the window and the peer's packet size; further
+            # operands (a local cap) only make the bound tighter
             return len(bl) == 1 and is_call(bl[0], 'min') and \
-                {dotted(a) for a in bl[0].args} == {
-                    'self._send_window', 'self._send_pktsize'} and not bf
+                {dotted(a) for a in bl[0].args} >= {
+                    'self._send_window', 'self._send_pktsize'} and \
+                not (bf - {'_MAX_PKTSIZE'})
         defs = [d for d in rd.defs_of(node.id, var or '') if d != PARAM]
         if not var or not defs:
             okall = False
@@ -777,3 +780,62 @@ def run(idx, rep, tier):
              'the EOF state of this side')
     backpressure_table(k, 'C08.R10')
     readuntil_gives_up_when_paused(k, 'C08.R11')
+    rep.rule('C08.R13', 'SSHProcess.clear_writer: when the writer that is '
+             'removed had paused the feed of its data type '
+             '(_paused_write_streams), the pause is lifted there - on every '
+             'path to the return resume_feeding() is called unless the data '
+             'type was not paused; clear_writer is also how a downstream '
+             'process that closes or hits EOF detaches, and nobody else '
+             'would resume the upstream channel')
+    _fc = k.func('process.SSHProcess.clear_writer')
+    _gc = k.cfg(_fc)
+    _res = [n.id for n, c in k.calls_named(_fc, 'resume_feeding', 'self')]
+
+    def _not_paused(x):
+        a = x.ast
+        if x.kind == 'atom' and isinstance(a, ast.Compare) and \
+                len(a.ops) == 1 and \
+                dotted(a.comparators[0]) == 'self._paused_write_streams':
+            if isinstance(a.ops[0], ast.In):
+                return False
+            if isinstance(a.ops[0], ast.NotIn):
+                return True
+        return None
+    _w = _gc.guarded_by(_gc.exit, _not_paused, extra_blocked=_res)
+    rep.check(_w is None, 'C08.R13',
+              key(_fc, 'pause does not outlive its writer'),
+              'resume_feeding(datatype) unless the type was not paused',
+              'SSH-to-SSH pipe A.stdout -> B.stdin, B back-pressures A and '
+              'then exits: A\'s channel stays paused for ever, no '
+              'WINDOW_ADJUST goes out and A\'s remote writer blocks',
+              _fc.loc(_fc.node), _gc.describe_path(_w) if _w else None)
+    rep.rule('C08.R12', 'SSHServerChannel._start_session: a second shell / '
+             'exec / subsystem request on a session that already started '
+             'is refused before any session callback - _report_response '
+             'calls resume_reading() for every successful start, which '
+             'would lift the pause the stream layer put on an application '
+             'that is not reading: from then on the window is replenished '
+             'for ever and input is buffered without bound')
+    _fi = k.func('channel.SSHServerChannel._start_session')
+    _g = k.cfg(_fi)
+    _cbs = [n for n, c in k.call_nodes(_fi, lambda c: isinstance(
+        c.func, ast.Attribute) and c.func.attr in (
+            'exec_requested', 'shell_requested', 'subsystem_requested'))]
+    rep.floor('C08.R12', 'session start callbacks', len(_cbs), 3)
+    _flags = {nm for n in _g.nodes for nm, v in k.rd(_fi).defs[n.id]
+              if nm.startswith('self._')} - {'self._command',
+                                             'self._subsystem'}
+    for _n in _cbs:
+        _w = _g.guarded_by(_n.id, lambda x: False if x.kind == 'atom' and
+                           dotted(x.ast) in _flags else None)
+        rep.check(bool(_flags) and _w is None, 'C08.R12',
+                  key(_fi, 'one start per session'),
+                  'reached only with the started flag clear',
+                  'window 8192, server application never reads: 13 kB '
+                  'accepted, then a second exec request is answered True, '
+                  'the handler starts again and all 819200 bytes are '
+                  'accepted and buffered', k.loc(_fi, _n),
+                  _g.describe_path(_w) if _w else None)
+    from .shared import share
+    from .c07 import r2 as _c07r2
+    share(k, 'C08.R14', 'a CLOSE that arrives while reading is paused waits for the buffered data (= C07.R2): in-window bytes still in the channel are delivered before the cleanup', _c07r2, keep=lambda key: '_flush_recv_buf' in key)
